@@ -70,9 +70,15 @@ class FpMonitor:
         import numpy as np
         self.lib, self.other = {}, set()
         old = np.seterrcall(self.callback)
+        self.err_leak = None
         try:
             with np.errstate(all="call"):
-                return prop.run(case)
+                res = prop.run(case)
+                # the error mode / callback as the case leaves them (the context manager restores the mode on exit, which would hide a leak)
+                now = np.geterr()
+                if any(v != "call" for v in now.values()) or np.geterrcall() != self.callback:
+                    self.err_leak = {k: v for k, v in now.items() if v != "call"} or {"errcall": "replaced"}
+                return res
         finally:
             np.seterrcall(old)
 
@@ -107,6 +113,8 @@ def run_one(prop, case, ctx):
         if watch:
             ctx.tick("global-state")
             after = global_state()
+            if getattr(FP, "err_leak", None):
+                after = dict(after, geterr=dict(after["geterr"], **{k: "%s (left behind by the operations of the case)" % v for k, v in FP.err_leak.items()}))
             if after != before and res["verdict"] != VIOLATED:
                 changed = {k: (before[k], after[k]) for k in before if before[k] != after.get(k)}
                 import numpy as np
